@@ -1,12 +1,13 @@
-(* Actual/CollectActual.v — the quirk vector claimed for the current tree (hand-maintained; tied to the
+(* Actual/CollectActual.v — the quirk vector claimed for the current tree: every flag off since the fixes b20520c, 27377de,
+   bbae54e and 9c8f928 (the model then runs the generated functions themselves).  Hand-maintained; tied to the
    code by the C14 correspondence check, listed flag-by-flag in known.d/C14.json). *)
 From TL Require Import Lib.Base Model.Collect.
 
 Definition collect_actual : cquirks := {|
-  q_excl_above_root := true;
-  q_excl_filename := true;
-  q_dirpat_prefix := true;
-  q_dirpat_filename := true;
-  q_doublestar_needs_dir := true;
-  q_ti_shadows_config := true;
-  q_json_ignore_unused := true |}.
+  q_excl_above_root := false;
+  q_excl_filename := false;
+  q_dirpat_prefix := false;
+  q_dirpat_filename := false;
+  q_doublestar_needs_dir := false;
+  q_ti_shadows_config := false;
+  q_json_ignore_unused := false |}.
